@@ -17,10 +17,12 @@ Managed   == {"del", "del_root"}                                \* go through th
 InPlace   == {"resize", "assign", "concat", "push", "pop", "popat",     \* String / Tuple reallocate their own storage
               "append", "printto", "lookfrom", "lookempty", "scanshow"}  \* ... also through formatted writes and look / scan into a String
 Ops == Releasing \cup Managed \cup InPlace
+Swapping  == {"swapstack", "swapheap"}                          \* swap with an object of the same type from another storage class
 
 (* outcome of op on a live object of class cls; reg = the collector knows it (new / new_root / alloc / copy) *)
 Expect(cls, reg, op) ==
-  IF cls = "heap"
+  IF op \in Swapping THEN [kind |-> "swap", excs |-> {}]          \* the values change places; each object keeps its own storage class
+  ELSE IF cls = "heap"
   THEN IF op \in Releasing THEN [kind |-> "release", excs |-> {}]
        ELSE IF op \in Managed THEN (IF reg THEN [kind |-> "release", excs |-> {}] ELSE [kind |-> "ignored", excs |-> {}])
        ELSE [kind |-> "ok", excs |-> {}]
